@@ -4,6 +4,7 @@ package dicescript
 
 import (
 	"bytes"
+	"math"
 
 	"golang.org/x/exp/rand"
 )
@@ -11,6 +12,7 @@ import (
 func init() {
 	vHarnesses["VH_C06_prov"] = VH_C06_prov
 	vHarnesses["VH_C06_seed"] = VH_C06_seed
+	vHarnesses["VH_C06_rollsrc"] = VH_C06_rollsrc
 	vHarnesses["VH_C06_order"] = VH_C06_order
 }
 
@@ -61,7 +63,7 @@ func VH_C06_prov() {
 	vAssert(vAnd(vGlobalRandUses() == 0, vDrawsFrom(vm.RandSrc) == vDrawCount()), "all-randomness-from-the-context-generator")
 }
 
-//vh:prop=C06 tiers=quick,thorough bounds="all 128-bit generator states (two 64-bit symbols): MarshalBinary/UnmarshalBinary of x/exp/rand (interpreted) and GetCurSeed -> Seed -> Init round-trip the state exactly"
+//vh:prop=C06 tiers=quick,thorough summaries=Roll:roll-log unwind=8 budget_s=600 bounds="all 128-bit generator states (two 64-bit symbols): MarshalBinary/UnmarshalBinary of x/exp/rand (interpreted) and GetCurSeed -> Seed -> Init round-trip the state exactly"
 func VH_C06_seed() {
 	lo, hi := vUint64("low"), vUint64("high")
 	var b [16]byte
@@ -101,6 +103,24 @@ func VH_C06_seed() {
 	vm4.Init()
 	g1, _ := randSource.MarshalBinary()
 	vAssert(bytes.Equal(g0, g1), "seeding-leaves-the-package-generator-alone")
+}
+
+//vh:prop=C06 tiers=quick,thorough unwind=6 solver=z3-new/int portfolio=cvc5/int,z3/bv,z3-new/bv budget_s=600 bounds="one die through the real sampler (Roll, _roll64) with the side count a 64-bit symbol over [1, MaxInt64-1] and every generator output a fresh symbol, any number of rejected draws (inductive loop cut): every draw, including the re-draws after a rejection, is taken from the generator that was passed in, and the package-level generator is not used; with no generator passed the package-level one is the only one used"
+func VH_C06_rollsrc() {
+	n := vInt64("n")
+	vAssume(n >= 1)
+	vAssume(n <= math.MaxInt64-1)
+	if vChoice("nil-source", 2) == 1 {
+		Roll(nil, IntType(n), 0)
+		vReach("rolled")
+		vAssert(vDrawsFrom(randSource) == vDrawCount(), "without-a-generator-only-the-package-generator-is-used")
+		return
+	}
+	src := &rand.PCGSource{}
+	Roll(src, IntType(n), 0)
+	vReach("rolled")
+	vAssert(vDrawsFrom(src) == vDrawCount(), "every-draw-of-a-die-comes-from-the-given-generator")
+	vAssert(vGlobalRandUses() == 0, "package-generator-unused-when-a-generator-is-given")
 }
 
 var vC06OrderProgs = []string{
